@@ -415,22 +415,38 @@ def seriesKey (mtype : Bytes) (line : Bytes) (offs : List OffLbl) (mfName : Byte
     if (mtype == kwSummary && l == kwQuantile) || (mtype == kwHistogram && l == kwLe) then []
     else l ++ slice line o.c o.d) ++ mfName
 
-/-- the peek loop of `StartTimestamp`: `some st` = created line found -/
-def oPeek : Nat → OP → Bytes → Except PErr (Option Int)
-  | 0, _, _ => .ok none
+/-- What a `Next` that fails (or not) on a `# HELP/TYPE/UNIT` line leaves behind in the fields that
+    `StartTimestamp` does not restore: `p.mfNameLen` is assigned after the name token, `p.unit` after the text
+    token of a UNIT line (before the suffix check). -/
+def metaClobber (q : OP) : Nat × Bytes :=
+  let t := omLex q.lst q.rest
+  if t.tok == .help || t.tok == .type || t.tok == .unit then
+    let t2 := omLex t.st t.rest
+    if t2.tok != .mname then (q.mfNameLen, q.unit) else
+    let len := (stripQuotes t2.buf).length
+    let t3 := omLex t2.st t2.rest
+    if t3.tok != .text then (len, q.unit) else
+    let text := if t3.buf.length > 1 then inner t3.buf else []
+    if t.tok == .unit then (len, text) else (len, q.unit)
+  else (q.mfNameLen, q.unit)
+
+/-- the peek loop of `StartTimestamp`: `some st` = created line found; plus the `mfNameLen` and `unit` the
+    peeking leaves in the parser (they are not restored afterwards) -/
+def oPeek : Nat → OP → Bytes → Except PErr (Option Int × Nat × Bytes)
+  | 0, q, _ => .ok (none, q.mfNameLen, q.unit)
   | fuel + 1, q, key =>
     match oNextEntry (q.rest.length + 2) q with
     | .error .hang => .error .hang
     | .error .panic => .error .panic
-    | .error .err => .ok none
-    | .ok none => .ok none          -- io.EOF is an error for the loop as well
+    | .error .err => .ok (none, metaClobber q)
+    | .ok none => .ok (none, q.mfNameLen, q.unit)          -- io.EOF is an error for the loop as well
     | .ok (some (.series _, q')) =>
       let peeked := slice q'.line q'.nameOff.1 q'.nameOff.2
       if !hasSuffix peeked kwCreated then oPeek fuel q' key
       else
         let k := seriesKey q'.mtype q'.line q'.offs (peeked.take (peeked.length - 8))
-        if k != key then .ok none else .ok (some (mul1000ToInt q'.val))
-    | .ok (some (_, _)) => .ok none
+        if k != key then .ok (none, q'.mfNameLen, q'.unit) else .ok (some (mul1000ToInt q'.val), q'.mfNameLen, q'.unit)
+    | .ok (some (_, q')) => .ok (none, q'.mfNameLen, q'.unit)
 
 /-- `OpenMetricsParser.StartTimestamp()` for the series just returned by `Next`. -/
 def oStartTimestamp (p : OP) : Except PErr (Int × OP) :=
@@ -446,8 +462,8 @@ def oStartTimestamp (p : OP) : Except PErr (Int × OP) :=
   if p.stKey == some key && p.stVal > 0 then .ok (p.stVal, p) else
   match oPeek (p.rest.length + 2) { p with skipST := false, ignoreEx := true } key with
   | .error e => .error e
-  | .ok none => .ok (0, { p with stKey := none, skipST := true })
-  | .ok (some st) => .ok (st, { p with stVal := st, stKey := some key, skipST := true })
+  | .ok (none, len, unit) => .ok (0, { p with stKey := none, skipST := true, mfNameLen := len, unit := unit })
+  | .ok (some st, len, unit) => .ok (st, { p with stVal := st, stKey := some key, skipST := true, mfNameLen := len, unit := unit })
 
 def OEntry.toEntry (st : Int) : OEntry → Entry
   | .typ n t => .typ n t
